@@ -510,9 +510,26 @@ fn hist_case(line: &str) -> Vec<String> {
     let mut out = vec![format!("CASE {}", line)];
     let mut g = mk_generator(&m);
     let calls: Vec<&str> = m["hist"].split(';').collect();
+    // `c:<field>=<value>`: the caller changes a public setting of the generator between two calls (fields are `pub`; the
+    // builder methods take `self` by value and give the same object back)
+    let set_field = |g: &mut Generator, kvs: &str| {
+        let (k, v) = kvs.split_once('=').unwrap();
+        match k {
+            "unsafe" => g.unsafe_mutations = v == "1",
+            "ext" => g.allow_ext_opcodes = v == "1",
+            "buf" => g.allow_buffer_opcodes = v == "1",
+            "min" => g.min_opcodes = v.parse().unwrap(),
+            "max" => g.max_opcodes = v.parse().unwrap(),
+            "rate" => g.mutation_rate = f64::from_bits(u64::from_str_radix(v, 16).unwrap()),
+            _ => panic!("unknown field {}", k),
+        }
+    };
     let do_call = |g: &mut Generator, c: &str| -> Option<String> {
         if c == "r" {
             g.reset();
+            None
+        } else if let Some(kvs) = c.strip_prefix("c:") {
+            set_field(g, kvs);
             None
         } else if let Some(s) = c.strip_prefix("s:") {
             Some(run_src(g, &format!("seed:{}", s)))
@@ -526,8 +543,11 @@ fn hist_case(line: &str) -> Vec<String> {
             None => out.push(format!("H {} reset", i)),
         }
     }
-    // the property's own comparison: a fresh generator receiving only the last call
+    // the property's own comparison: a fresh generator (with the settings in force at the end) receiving only the last call
     let mut fresh = mk_generator(&m);
+    for c in calls.iter().filter(|c| c.starts_with("c:")) {
+        set_field(&mut fresh, c.strip_prefix("c:").unwrap());
+    }
     if let Some(r) = do_call(&mut fresh, calls[calls.len() - 1]) {
         out.push(format!("FRESH {}", r));
     }
